@@ -217,6 +217,38 @@ class ExprMixin:
         else:
             st.assume(smt.forall([x], z3.Select(a, x) != o, patterns=[z3.Select(a, x)]))
 
+    def attr_defined_by_runtime_class(self, st, o, static, attr):
+        """The static class lacks `attr`, but the path condition may confine the object to subclasses that define it
+        (e.g. after `isinstance(t, (AsyncTask, BatchItemBase))`): decided by the solver."""
+        if self.dry:
+            return True
+        bases = self.eng.repo.class_bases()
+        subs = []
+        for c in bases:
+            if c != static and self.eng.ct.known(c) and self.eng.ct.is_sub(c, static):
+                names, _ = self.eng.repo.class_fields(c)
+                if attr in names:
+                    subs.append(c)
+        if not subs:
+            return False
+        sol = z3.Solver()
+        sol.set("timeout", 1000)
+        sol.add(*self.eng.axioms())
+        sol.add(*st.pc)
+        sol.add(z3.Not(z3.Or(*[self.eng.isinstance_f(o, [self.eng.ct.cls(c)]) for c in subs])))
+        return sol.check() == z3.unsat
+
+    def format_calls_user_repr(self, e, st):
+        """`fmt % operands`: does some %r/%s conversion receive an operand whose static type is not str/int/bool/None?"""
+        fmt = e.left.value if isinstance(e.left, ast.Constant) and isinstance(e.left.value, str) else None
+        if fmt is not None and "%r" not in fmt and "%s" not in fmt:
+            return False
+        ops = list(e.right.elts) if isinstance(e.right, ast.Tuple) else [e.right]
+        for o in ops:
+            if self.static_type(o, st) not in ("str", "int", "bool", "NoneType"):
+                return True
+        return False
+
     def new_exception(self, st, clsname, args=()):
         e = self.alloc(st, clsname)
         for i, a in enumerate(args):
@@ -379,7 +411,8 @@ class ExprMixin:
             t = self.static_type(base, st2)
             if t and self.eng.repo.class_module(t) and not self.contract.labels.get("noattrcheck"):
                 names, _ = self.eng.repo.class_fields(t)
-                if e.attr not in names and e.attr not in self.reg.presence_fields and not e.attr.startswith("__"):
+                if (e.attr not in names and e.attr not in self.reg.presence_fields and not e.attr.startswith("__")
+                        and not self.attr_defined_by_runtime_class(st2, o, t, e.attr)):
                     # attribute the class never defines: AttributeError (unless a subclass adds it: assumed not)
                     exc = self.new_exception(st2, "AttributeError")
                     st2.trace.append("L%d: %s has no attribute %s" % (e.lineno, t, e.attr))
@@ -586,6 +619,15 @@ class ExprMixin:
             ta, tb = self.static_type(e.left, st2), self.static_type(e.right, st2)
             if isinstance(e.op, ast.Mod) and (ta == "str" or isinstance(e.left, ast.Constant) and isinstance(e.left.value, str)):
                 # string formatting: opaque total function of its operands (totality: see C18 checks)
+                if self.contract.labels.get("format_user_repr") and self.format_calls_user_repr(e, st2):
+                    # opt-in (label format_user_repr): %r / %s of a value whose type is not a built-in scalar runs user
+                    # __repr__/__str__ code, which may raise any Exception
+                    xs = st2.copy()
+                    exc = fresh_v("exc_user_repr")
+                    xs.assume(smt.subclass(smt.typeof(exc), self.eng.ct.cls("Exception")))
+                    xs.assume(xs.heap.sel("$alloc", exc))
+                    xs.trace.append("L%d: a user __repr__/__str__ called by %% formatting raises" % e.lineno)
+                    yield xs, None, exc
                 yield st2, opaque_fn("fmt", 2)(a, b), None
                 continue
             if ta == "str" or tb == "str":
